@@ -218,8 +218,53 @@ def apply_lnk_kinds(rng, rep, items, kinds, p=0.45, force=None):
     return items
 
 
+def mrs_var_names(m):
+    """every variable / handle name an MRS mentions, verbatim"""
+    out = set(m.variables)
+    out.update(v for v in (m.top, m.index) if v is not None)
+    for ep in m.rels:
+        out.add(ep.label)
+        out.update(a for r, a in ep.args.items() if r != "CARG")
+    for h in m.hcons:
+        out.update((h.hi, h.lo))
+    for i in m.icons:
+        out.update((i.left, i.right))
+    return out
+
+
+def zpad_mrs(m, mode):
+    """the same MRS with ZERO-PADDED variable numbers: mode 'pad' -- every name gets two digits (h00, e02, x04);
+    mode 'mixed' -- handles padded, and among the other variables one keeps its plain name (x4) while another of the
+    same sort is renamed to the padded spelling of the SAME number (x04): two distinct variables whose numbers are
+    equal as integers"""
+    names = sorted(mrs_var_names(m), key=lambda v: (v[0], int(v[1:])))
+    mp = {v: "%s%02d" % (v[0], int(v[1:])) for v in names}
+    if mode == "mixed":
+        plain = [v for v in names if v[0] != "h"]
+        for a_ in plain:
+            b_ = next((w for w in plain if w != a_ and w[0] == a_[0]), None)
+            if b_ is not None:
+                mp[a_] = a_
+                mp[b_] = "%s0%s" % (a_[0], a_[1:])
+                break
+
+    def rn(v):
+        return mp.get(v, v)
+    rels = [_mrs.EP(ep.predicate, rn(ep.label), args={r: (a if r == "CARG" else rn(a)) for r, a in ep.args.items()},
+                    lnk=ep.lnk, surface=ep.surface, base=ep.base) for ep in m.rels]
+    return _mrs.MRS(rn(m.top) if m.top else m.top, rn(m.index) if m.index else m.index, rels,
+                    [_mrs.HCons(rn(h.hi), h.relation, rn(h.lo)) for h in m.hcons],
+                    [_mrs.ICons(rn(i.left), i.relation, rn(i.right)) for i in m.icons],
+                    {rn(v): dict(ps) for v, ps in m.variables.items()},
+                    lnk=m.lnk, surface=m.surface, identifier=m.identifier)
+
+
 def build_item(rep, j):
     """fresh object of representation `rep` from its JSON description"""
+    if rep == "mrs" and j.get("zpad"):
+        j2 = dict(j)
+        mode = j2.pop("zpad")
+        return zpad_mrs(build_item(rep, j2), mode)
     if rep == "mrs":
         m = semgen.mrs_from_json(_strip_kinds(j, "rels"))
         for ep, je in zip(m.rels, j["rels"]):
@@ -1565,6 +1610,38 @@ class C20(Check):
                 c["ace_layout"] = list(layout) if len(c["items"]) == nn else ace_layout_default(len(c["items"]))
                 yield c
         yield {"kind": "cli_list"}
+        # (12) ZERO-PADDED variable / handle numbers (h00, e02; x4 together with x04) through every same-representation
+        #      chain of the MRS formats; judged by oracle clause (z)
+        chain = [("simplemrs", "mrx"), ("mrx", "simplemrs"), ("simplemrs", "mrsjson"), ("mrsjson", "mrx"),
+                 ("mrx", "mrsjson"), ("mrsjson", "simplemrs"), ("simplemrs", "simplemrs"), ("mrx", "mrx"),
+                 ("indexedmrs", "simplemrs"), ("simplemrs", "indexedmrs"), ("indexedmrs", "indexedmrs"),
+                 ("mrx", "indexedmrs"), ("indexedmrs", "mrsjson"), ("ace", "mrx")]
+        for s0, t0 in chain:
+            for mode in ("pad", "mixed"):
+                kk += 1
+                ln_s = kk % 4 == 1 and s0 != "ace"
+                inp = ("path", "stream", "dir", "stdin")[kk % 4]
+                if s0 == "ace" and inp == "dir":
+                    inp = "path"
+                c = self.mk_case(rng, s0, t0, n=2, dup="none", src=SPELLINGS[s0][0] + ("-lines" if ln_s else ""),
+                                 tgt=SPELLINGS[t0][0] + ("-lines" if kk % 3 == 0 else ""), select=0, via="api",
+                                 input=inp if not (ln_s and inp == "dir") else "path", indent=[None, 2][kk % 2],
+                                 indexed="indexedmrs" in (s0, t0), properties=True, lnk=True)
+                for it in c["items"]:
+                    it["zpad"] = mode
+                yield c
+        # (13) a '-lines' SOURCE whose last line has no trailing newline (what convert(..., '<fmt>-lines') returns), with
+        #      1, 2 and N items, path and stream: N lines give N structures
+        for s0 in READABLE:
+            if s0 == "ace":
+                continue
+            ts = [x for x in TARGETS + ["indexedmrs"] if supported(s0, x) and (x != "indexedmrs" or s0 == "indexedmrs")]
+            for nn in (1, 2, 5):
+                kk += 1
+                t0 = ts[kk % len(ts)] if s0 != "indexedmrs" else ("simplemrs", "indexedmrs", "mrx")[kk % 3]
+                yield self.mk_case(rng, s0, t0, n=nn, dup="none", src=SPELLINGS[s0][0] + "-lines",
+                                   tgt=SPELLINGS[t0][0] + ("-lines" if kk % 2 else ""), via="api",
+                                   input=("path", "stream", "pathobj", "file", "stdin")[kk % 5], no_final_nl=True)
         # (10) same format on both sides (a pass-through of the source text would be wrong: the options still apply and
         #      the items are re-serialised), plain -> plain, '-lines' -> '-lines', every input kind
         for s0 in READABLE:
@@ -1690,7 +1767,10 @@ class C20(Check):
             lines = list(singles)
             if case.get("badline") is not None:
                 lines.insert(min(case["badline"], len(lines)), "")       # a blank line: decode('') raises
-            return singles, "".join(s + "\n" for s in lines)
+            doc = "".join(s + "\n" for s in lines)
+            if case.get("no_final_nl") and doc.endswith("\n"):
+                doc = doc[:-1]           # what convert(..., '<fmt>-lines') returns: the last line is not terminated
+            return singles, doc
         ind = case.get("src_indent")
         singles = [sc.dumps([o], properties=True, lnk=True, indent=ind) for o in objs]
         if case.get("baddoc"):
@@ -2249,6 +2329,31 @@ class C20(Check):
                     fail("the source reader delivers a different structure than the item that was written",
                          repr((src, i, b, a)))
                     break
+            # (z) variable / handle names come back VERBATIM (zero-padded numbers stay padded, x4 and x04 stay two
+            #     variables): read the output with the target codec, and transcode it back to the source format
+            if any(it.get("zpad") for it in case["items"]) and REP[tgt] == "mrs" and tgt in READABLE \
+                    and len(good) == len(per):
+                want = [mrs_var_names(objs[i]) for i in idx]
+                semi_kw = {"semi": SEMI} if "indexedmrs" in (src, tgt) else {}
+
+                def names_of(c_, text, lines_):
+                    if lines_:
+                        return [mrs_var_names(c_.decode(ln)) for ln in io.StringIO(text).readlines()]
+                    return [mrs_var_names(x_) for x_ in c_.loads(text)]
+                try:
+                    got = names_of(tc, out, tl)
+                    if got != want:
+                        fail("variable names do not come back verbatim from the target document",
+                             repr((tgt, [sorted(w ^ g) for w, g in zip(want, got)][:3], len(want), len(got))))
+                    if src in WRITABLE:
+                        back_txt = commands.convert(io.StringIO(out), case["tgt"], src, **semi_kw)
+                        got2 = names_of(sc, back_txt, False)
+                        if got2 != want:
+                            fail("variable names do not come back verbatim after transcoding there and back",
+                                 repr((src, tgt, [sorted(w ^ g) for w, g in zip(want, got2)][:3])))
+                except Exception as e:
+                    fail("a document with zero-padded variable numbers cannot be read back",
+                         repr((src, tgt, type(e).__name__, str(e)[:200])))
             # (d) purity: the same input converted again -- directly, and after a conversion with other
             #     options (other indent, other target) in the same process -- gives the identical text
             out2, err2 = self.run_convert(case)
@@ -2382,6 +2487,10 @@ class C20(Check):
             inc("items with ICONS")
         if case.get("semi_path"):
             inc("semi given as a path")
+        if any(it.get("zpad") for it in case["items"]):
+            inc("zero-padded variable numbers:" + case["items"][0]["zpad"] + ":%s->%s" % (s, t))
+        if case.get("no_final_nl"):
+            inc("lines source without final newline:n=%d:%s" % (len(case["items"]), case["input"]))
         if case.get("ace_mode"):
             inc("ace:" + case["ace_mode"])
         inc("via:" + case.get("via", "api"))
